@@ -203,8 +203,10 @@ struct Watch {
     flag: Option<std::sync::Arc<std::sync::atomic::AtomicBool>>,
     deadline: Option<std::time::Instant>,
     overran: bool,
+    /// the case being searched (written to a side file if the worker has to give up)
+    case: String,
 }
-static WATCH: Mutex<Watch> = Mutex::new(Watch { flag: None, deadline: None, overran: false });
+static WATCH: Mutex<Watch> = Mutex::new(Watch { flag: None, deadline: None, overran: false, case: String::new() });
 static WATCH_STARTED: std::sync::Once = std::sync::Once::new();
 
 fn watchdog_start() {
@@ -216,6 +218,9 @@ fn watchdog_start() {
                 let now = std::time::Instant::now();
                 if now > dl + std::time::Duration::from_secs(20) {
                     eprintln!("watchdog: a search ignored the stop flag for 20 s; giving up on this worker");
+                    let dir = super::report::verif_root().join(".work").join("overrun");
+                    let _ = std::fs::create_dir_all(&dir);
+                    let _ = std::fs::write(dir.join(format!("{}.json", std::process::id())), w.case.as_bytes());
                     std::process::exit(3);
                 }
                 if now > dl {
@@ -273,6 +278,7 @@ pub fn run_within(board: &Board, case: &Case, o: &Opts, allowance: std::time::Du
             w.flag = Some(search.running.clone());
             w.deadline = Some(std::time::Instant::now() + allowance);
             w.overran = false;
+            w.case = case.json().compact();
         }
         search.search(&SimpleEvaluator, max_depth);
         search.rce_verif_result()
